@@ -25,6 +25,7 @@ import (
 	"strconv"
 	"strings"
 	"sync"
+	"sync/atomic"
 	"testing"
 	"time"
 
@@ -464,6 +465,63 @@ func breadcrumb(check string, c any) {
 	_ = os.WriteFile(filepath.Join(cfg.OutDir, fmt.Sprintf("breadcrumb-%d.json", cfg.Shard)), data, 0o644)
 }
 
+// Hang watchdog (VERIF_HANG_SECONDS, set by the driver for the properties that
+// ask for it): a case that is still being judged after that many seconds -
+// orders of magnitude beyond what any case takes - is written to
+// hang-<shard>.json and the process exits with status 4. The driver replays
+// that one case on its own before believing it.
+type watched struct {
+	check string
+	c     any
+	start time.Time
+}
+
+var (
+	watchCur   atomic.Pointer[watched]
+	watchLimit time.Duration
+	watchOnce  sync.Once
+)
+
+// watch notes the case about to be judged; done() clears it.
+func watch(check string, c any) (done func()) {
+	watchOnce.Do(func() {
+		n, err := strconv.Atoi(os.Getenv("VERIF_HANG_SECONDS"))
+		if err != nil || n <= 0 {
+			return
+		}
+		watchLimit = time.Duration(n) * time.Second
+		go func() {
+			for {
+				time.Sleep(500 * time.Millisecond)
+				w := watchCur.Load()
+				if w == nil || time.Since(w.start) < watchLimit {
+					continue
+				}
+				raw, err := json.Marshal(w.c)
+				if err != nil {
+					raw = []byte("null")
+				}
+				rf := ReplayFile{Property: cfg.Property, Check: w.check, Sig: "hang", Msg: fmt.Sprintf("the case was still being handled after %s", watchLimit), Case: raw}
+				data, _ := json.Marshal(rf)
+				if cfg.OutDir != "" {
+					_ = os.WriteFile(filepath.Join(cfg.OutDir, fmt.Sprintf("hang-%d.json", cfg.Shard)), data, 0o644)
+				}
+				if cfg.Replay != "" {
+					out, _ := json.Marshal(map[string]any{"check": w.check, "failed": true, "sig": "hang", "msg": rf.Msg})
+					fmt.Printf("REPLAY-RESULT %s\n", out)
+				}
+				fmt.Fprintf(os.Stderr, "vh: hang watchdog: check %s exceeded %s\n", w.check, watchLimit)
+				os.Exit(4)
+			}
+		}()
+	})
+	if watchLimit == 0 {
+		return func() {}
+	}
+	watchCur.Store(&watched{check: check, c: c, start: time.Now()})
+	return func() { watchCur.Store(nil) }
+}
+
 // safeOracle runs the oracle turning a panic into a failure whose signature
 // names the top frame inside the repository.
 func safeOracle(fn func(), o *Obs) {
@@ -521,7 +579,9 @@ func Rapid[C any](name string, quick, thorough int, gen func(t *rapid.T) C, orac
 			return nil, err
 		}
 		o := &Obs{}
+		done := watch(name, c)
 		safeOracle(func() { oracle(c, o) }, o)
+		done()
 		return o, nil
 	}
 	def.run = func(t *testing.T, r *Runner) {
@@ -548,7 +608,9 @@ func Rapid[C any](name string, quick, thorough int, gen func(t *rapid.T) C, orac
 					c := gen(rt)
 					o := &Obs{}
 					breadcrumb(name, c)
+					done := watch(name, c)
 					safeOracle(func() { oracle(c, o) }, o)
+					done()
 					var raw []byte
 					getRaw := func() []byte {
 						if raw == nil {
@@ -596,7 +658,9 @@ func Enum[C any](name string, iter func(yield func(C) bool), oracle func(c C, o 
 			return nil, err
 		}
 		o := &Obs{}
+		done := watch(name, c)
 		safeOracle(func() { oracle(c, o) }, o)
+		done()
 		return o, nil
 	}
 	def.run = func(t *testing.T, r *Runner) {
@@ -613,7 +677,9 @@ func Enum[C any](name string, iter func(yield func(C) bool), oracle func(c C, o 
 			}
 			o := &Obs{}
 			breadcrumb(name, c)
+			done := watch(name, c)
 			safeOracle(func() { oracle(c, o) }, o)
+			done()
 			getRaw := func() []byte {
 				raw, err := json.Marshal(c)
 				if err != nil {
